@@ -38,6 +38,28 @@ class Unanalysable(Exception):
     pass
 
 
+def ty_bits(ty):
+    """(width, signed) of an integer type name; None when not an integer type."""
+    m = INT_TY.match(ty or "")
+    if not m:
+        return None
+    w = 64 if m.group(1) == "size" else int(m.group(1))
+    return w, ty[0] == "i"
+
+
+def same_tree(a, b, depth=0):
+    """Structural equality of two value trees (the same expression recomputed)."""
+    if a is b:
+        return True
+    if depth > 24 or not isinstance(a, Node) or not isinstance(b, Node):
+        return False
+    if (a.kind, a.op, a.name, a.value, len(a.kids)) != (b.kind, b.op, b.name, b.value, len(b.kids)):
+        return False
+    if a.kind == "param" and a.params != b.params:
+        return False
+    return all(same_tree(x, y, depth + 1) for x, y in zip(a.kids, b.kids))
+
+
 # ------------------------------------------------------------------------------------------------ spec
 
 class Spec:
@@ -109,7 +131,7 @@ class Spec:
 
 class Node:
     """An integer value: annotated expression tree."""
-    __slots__ = ("kind", "op", "kids", "unit", "fields", "params", "chain", "where", "ctx", "name", "value", "errs", "has_const", "why")
+    __slots__ = ("kind", "op", "kids", "unit", "fields", "params", "chain", "where", "ctx", "name", "value", "errs", "has_const", "why", "bits", "neg")
 
     def __init__(self, kind, unit, op=None, kids=(), fields=frozenset(), params=frozenset(), chain=frozenset(), where=None, ctx=(),
                  name=None, value=None, has_const=False, why=None):
@@ -119,6 +141,8 @@ class Node:
         self.errs = []
         self.has_const = has_const
         self.why = why
+        self.bits = 128        # upper bound on the magnitude bits of the value, by provenance (128 = unknown)
+        self.neg = False       # may be negative
 
     def terms(self):
         """Flattened additive terms [(sign, node)]."""
@@ -213,8 +237,11 @@ def value_params(v):
 
 # ------------------------------------------------------------------------------------------------ interpreter
 
-_CHECKED = re.compile(r"core::num::<impl [ui](?:8|16|32|64|128|size)>::(checked|wrapping|saturating|overflowing|strict|unchecked)_(add|sub|mul|div|rem|div_euclid|rem_euclid)$")
-_PLAIN = re.compile(r"core::num::<impl [ui](?:8|16|32|64|128|size)>::(div_euclid|rem_euclid|abs_diff|min|max)$")
+_CHECKED = re.compile(r"core::num::<impl ([ui](?:8|16|32|64|128|size))>::(checked|wrapping|saturating|overflowing|strict|unchecked)_(add|sub|mul|div|rem|div_euclid|rem_euclid)$")
+_PLAIN = re.compile(r"core::num::<impl ([ui](?:8|16|32|64|128|size))>::(div_euclid|rem_euclid|abs_diff|min|max)$")
+_TRYFROM = re.compile(r"^<([ui](?:8|16|32|64|128|size)) as core::convert::TryFrom<([ui](?:8|16|32|64|128|size))>>::try_from$|"
+                      r"^<([ui](?:8|16|32|64|128|size)) as core::convert::TryInto<([ui](?:8|16|32|64|128|size))>>::try_into$")
+_RUNWRAP = re.compile(r"core::result::Result::<.*>::(unwrap|expect|unwrap_unchecked|unwrap_or|unwrap_or_default)$")
 _MINMAX = re.compile(r"core::cmp::(?:Ord::)?(min|max)$|as core::cmp::Ord>::(min|max)$")
 _CONV = re.compile(r"as core::convert::(?:From|Into)<.*>>::(?:from|into)$")
 _UNWRAP = re.compile(r"core::option::Option::<.*>::(unwrap|expect|unwrap_unchecked|unwrap_or|unwrap_or_default)$")
@@ -233,15 +260,31 @@ class Interp:
         self.n_calls_inlined = 0
         self.inlined = set()
         self.opaque_calls = []
+        self.n_casts = 0
+        self._here = []                     # path conditions of the frame being executed, up to the current block
+        self._outer = []                    # path conditions of the enclosing (calling) frames
 
     # -------------------------------------------------------------- node builders
-    def param(self, pos, unit):
-        return Node("param", unit, params={pos}, name="arg%d" % pos)
+    def param(self, pos, unit, ty=None):
+        n = Node("param", unit, params={pos}, name="arg%d" % pos)
+        tb = ty_bits(ty)
+        if tb:
+            n.bits, n.neg = tb[0] - (1 if tb[1] else 0), tb[1]
+        return n
 
     def const(self, v):
-        return Node("const", None, value=v, has_const=True)
+        n = Node("const", None, value=v, has_const=True)
+        n.bits, n.neg = abs(v).bit_length(), v < 0
+        return n
 
-    def field(self, name, where, ctx):
+    def field(self, name, where, ctx, ty=None):
+        n = self._field(name, where, ctx)
+        tb = ty_bits(ty)
+        if tb:
+            n.bits, n.neg = tb[0] - (1 if tb[1] else 0), tb[1]
+        return n
+
+    def _field(self, name, where, ctx):
         f = self.spec.fields.get(name)
         if f is None:
             return Node("opaque", UNKNOWN, fields={name}, where=where, ctx=ctx, name=name, why="field `%s` has no declared unit in %s" % (name, os.path.basename(self.spec.path)))
@@ -269,8 +312,31 @@ class Interp:
                                               self.prov(l), self.prov(r), extra)
         node.errs.append(Err(rule, key, msg, where, unit_only, owner))
 
-    def bin(self, op, l, r, where, ctx, owner):
+    def bin(self, op, l, r, where, ctx, owner, ty=None, sel=None):
         """Arithmetic node with the transfer function of the unit domain and the era clauses."""
+        n = self._bin(op, l, r, where, ctx, owner)
+        if isinstance(l, Node) and isinstance(r, Node):
+            # width of the value by provenance (the operation itself is overflow-checked or wraps in its own type `ty`)
+            tb = ty_bits(ty) or (128, False)
+            cap = tb[0] - (1 if tb[1] else 0)
+            bl, br = l.bits, r.bits
+            if op == "Add":
+                b = max(bl, br) + 1
+            elif op == "Mul":
+                b = bl + br
+            elif op == "Rem":
+                b = min(bl, br)
+            elif op == "Sel":
+                b = min(bl, br) if sel == "min" else max(bl, br)
+            elif op == "Sub" and tb[1]:
+                b = cap
+            else:                      # Sub (unsigned: never above the minuend), Div
+                b = bl
+            n.bits = min(b, cap)
+            n.neg = tb[1] and (l.neg or r.neg or op == "Sub")
+        return n
+
+    def _bin(self, op, l, r, where, ctx, owner):
         sp = self.spec
         if not isinstance(l, Node) or not isinstance(r, Node):
             n = self.opaque("operand of %s is not an integer value the interpreter tracks" % op, [l, r], where, ctx)
@@ -353,6 +419,69 @@ class Interp:
                                   "time must be built from the same era's slot length and known slot" % (era, t.name, ",".join(foreign)), where, ctx, owner, False,
                                   extra="|anchor=%s|foreign=%s" % (t.name, ",".join(foreign)))
 
+    # -------------------------------------------------------------- R-CAST: narrowing of dimensioned quantities
+    def _with_bits(self, v, bits, neg=False):
+        """Shallow copy of a node with a tighter width bound (same tree, same error list)."""
+        c = Node(v.kind, v.unit, op=v.op, kids=v.kids, fields=v.fields, params=v.params, chain=v.chain, where=v.where, ctx=v.ctx,
+                 name=v.name, value=v.value, has_const=v.has_const, why=v.why)
+        c.errs = v.errs
+        c.bits, c.neg = bits, neg
+        return c
+
+    def _active_conds(self):
+        out = []
+        for cs in self._outer:
+            out.extend(cs)
+        out.extend(self._here)
+        return out
+
+    def _range_guarded(self, v, cap):
+        """Does a comparison known to hold on the current path bound `v` by a value that fits in `cap` magnitude bits?"""
+        for c in self._active_conds():
+            if c.kind != "cmp" or not isinstance(c.l, Node) or not isinstance(c.r, Node):
+                continue
+            for a, op, b in ((c.l, c.op, c.r), (c.r, SWAP[c.op], c.l)):
+                if op not in ("Lt", "Le", "Eq") or not same_tree(a, v):
+                    continue
+                if b.kind == "const" and b.value is not None:
+                    limit = b.value - (1 if op == "Lt" else 0)
+                    if 0 <= limit < (1 << cap):
+                        return True
+                elif b.bits <= cap and not b.neg:
+                    return True
+        return False
+
+    def cast(self, v, frm, to, where, ctx, owner):
+        """Integer `as` cast: transparent when lossless by provenance (widening, same width and signedness, a value whose width
+        bound fits the target, a narrowing under a range test); otherwise a cast node that carries an R-CAST error when the value is
+        a dimensioned quantity."""
+        self.n_casts += 1
+        fb, fs = ty_bits(frm)
+        tb, ts = ty_bits(to)
+        src_cap = fb - (1 if fs else 0)
+        cap = tb - (1 if ts else 0)
+        bits = min(v.bits, src_cap)
+        neg = v.neg and fs
+        lossy = bits > cap or (neg and not ts)
+        if not lossy:
+            return v
+        if not neg and self._range_guarded(v, cap):
+            return self._with_bits(v, cap)
+        if not isinstance(v.unit, tuple):
+            return self._with_bits(v, cap, ts)          # no unit: not a quantity the property talks about
+        n = Node("cast", v.unit, op="cast", kids=(v,), fields=v.fields, params=v.params, chain=v.chain, where=where, ctx=ctx,
+                 name="%s->%s" % (frm, to), has_const=v.has_const)
+        n.bits, n.neg = cap, ts
+        expr = tree_str(v, self.spec)
+        what = "truncates" if bits > cap else "reinterprets the sign of"
+        key = "R-CAST|%s|%s|%s->%s|%s|%s" % (self.entry, ">".join(ctx) or "-", frm, to, self.spec.ustr(v.unit), self.prov(v))
+        msg = ("`as %s` %s a quantity in %s, %s [%s], held in %s (up to %d significant bits by provenance, the target keeps %d): "
+               "values of 2^%d or more wrap, e.g. a %s that is 2^%d or more%s, so the result stops following the conversion formula"
+               % (to, what, self.spec.ustr(v.unit), expr, self.prov(v), frm, bits, cap, cap, self.spec.ustr(v.unit), cap,
+                  " past the anchor" if any(self.spec.fields.get(f, {}).get("role") == "known_slot" for f in v.fields) and v.params else ""))
+        n.errs.append(Err("R-CAST", key, msg, where, False, owner))
+        return n
+
     def cmp(self, op, l, r, where, ctx, owner):
         errs = []
         if isinstance(l, Node) and isinstance(r, Node):
@@ -394,6 +523,7 @@ class Interp:
             if bb in visited:
                 raise Unanalysable("loop in %s (bb%d): the interpreter only handles loop-free conversion code" % (fn.path, bb))
             visited = visited | {bb}
+            self._here = conds
             blk = fn.blocks[bb]
             for s in blk["st"]:
                 if s[0] == "a":
@@ -428,7 +558,12 @@ class Interp:
                 return
             if k in ("call", "tailcall"):
                 where = "%s:%s" % (fn.file, t.get("s", [None])[0])
-                results = self._call(fn, env, t, frame, where)
+                self._outer.append(conds)
+                try:
+                    results = self._call(fn, env, t, frame, where)
+                finally:
+                    self._outer.pop()
+                self._here = conds
                 if t.get("t") is None:
                     if k == "tailcall":
                         for v, cc in results:
@@ -495,7 +630,7 @@ class Interp:
                 continue
             if k == "field":
                 if isinstance(v, Struct):
-                    v = self.field(e[2], where, self._ctx(frame))
+                    v = self.field(e[2], where, self._ctx(frame), e[3] if len(e) > 3 else None)
                 elif isinstance(v, Tup):
                     v = v.comps[e[1]] if e[1] < len(v.comps) else Unk("tuple field")
                 elif isinstance(v, Opt):
@@ -538,7 +673,7 @@ class Interp:
             v = self._operand(fn, env, rv["x"], span, frame)
             if isinstance(v, Node):
                 if INT_TY.match(rv.get("to", "")) and INT_TY.match(rv.get("from", "")):
-                    return v
+                    return self.cast(v, rv["from"], rv["to"], where, ctx, owner)
                 return self.opaque("cast %s -> %s" % (rv.get("from"), rv.get("to")), [v], where, ctx)
             return v
         if k == "bin":
@@ -546,9 +681,9 @@ class Interp:
             l = self._operand(fn, env, rv["l"], span, frame)
             r = self._operand(fn, env, rv["r"], span, frame)
             if op in ARITH:
-                return self.bin(ARITH[op], l, r, where, ctx, owner)
+                return self.bin(ARITH[op], l, r, where, ctx, owner, ty=rv.get("lty"))
             if op in OVERFLOW:
-                return Tup([self.bin(OVERFLOW[op], l, r, where, ctx, owner), Unk("overflow flag")])
+                return Tup([self.bin(OVERFLOW[op], l, r, where, ctx, owner, ty=rv.get("lty")), Unk("overflow flag")])
             if op in NEG:
                 return self.cmp(op, l, r, where, ctx, owner)
             if isinstance(l, Node) or isinstance(r, Node):
@@ -599,18 +734,34 @@ class Interp:
             raise Unanalysable("workspace callee %s has no MIR body in the facts" % path)
         m = _CHECKED.search(path)
         if m and len(args) == 2:
-            node = self.bin(_OPNAME[m.group(2)], args[0], args[1], where, ctx, owner)
-            if m.group(1) == "checked":
+            node = self.bin(_OPNAME[m.group(3)], args[0], args[1], where, ctx, owner, ty=m.group(1))
+            if m.group(2) == "checked":
                 return [(Opt(node), [])]
-            if m.group(1) == "overflowing":
+            if m.group(2) == "overflowing":
                 return [(Tup([node, Unk("overflow flag")]), [])]
             return [(node, [])]
         m = _PLAIN.search(path)
         if m and len(args) == 2:
-            op = {"div_euclid": "Div", "rem_euclid": "Rem", "abs_diff": "Sub", "min": "Sel", "max": "Sel"}[m.group(1)]
-            return [(self.bin(op, args[0], args[1], where, ctx, owner), [])]
-        if _MINMAX.search(path) and len(args) == 2:
-            return [(self.bin("Sel", args[0], args[1], where, ctx, owner), [])]
+            op = {"div_euclid": "Div", "rem_euclid": "Rem", "abs_diff": "Sub", "min": "Sel", "max": "Sel"}[m.group(2)]
+            return [(self.bin(op, args[0], args[1], where, ctx, owner, ty=m.group(1), sel=m.group(2)), [])]
+        m = _MINMAX.search(path)
+        if m and len(args) == 2:
+            return [(self.bin("Sel", args[0], args[1], where, ctx, owner, sel=m.group(1) or m.group(2)), [])]
+        m = _TRYFROM.search(path)
+        if m and len(args) == 1 and isinstance(args[0], Node):
+            # checked conversion: on success the value is unchanged and fits the target
+            to = m.group(1) or m.group(4)
+            tb = ty_bits(to)
+            v = args[0]
+            return [(Opt(self._with_bits(v, min(v.bits, tb[0] - (1 if tb[1] else 0)), v.neg and tb[1])), [])]
+        m = _RUNWRAP.search(path)
+        if m and args and isinstance(args[0], Opt):
+            inner = args[0].inner
+            if m.group(1) == "unwrap_or" and len(args) == 2:
+                return [(self.bin("Sel", inner, args[1], where, ctx, owner), [])]
+            if m.group(1) == "unwrap_or_default":
+                return [(self.bin("Sel", inner, self.const(0), where, ctx, owner), [])]
+            return [(inner, [])]
         if _CONV.search(path) and len(args) == 1 and isinstance(args[0], Node):
             return [(args[0], [])]
         m = _UNWRAP.search(path)
@@ -698,6 +849,8 @@ def tree_str(n, spec, depth=0):
         return n.name
     if n.kind == "const":
         return str(n.value)
+    if n.kind == "cast":
+        return "(%s as %s)" % (tree_str(n.kids[0], spec, depth + 1), (n.name or "->?").split("->")[-1])
     if n.kind == "bin":
         return "(%s %s %s)" % (tree_str(n.kids[0], spec, depth + 1), SYMBOL.get(n.op, n.op), tree_str(n.kids[1], spec, depth + 1))
     return "<%s>" % (n.why or "opaque")
